@@ -10,7 +10,7 @@ FARM_CLAUSES_C06 = ["C06_Budget", "C06_Funded", "C06_AdjustApplies", "C06_ProRat
 # diagnostic clauses (specification grown beyond the listed properties: governance-funded pools, AdjustPool
 # corners, as-is genesis round trips inside a history); evaluated on every trace and in the exhaustive configs,
 # reported under "other", never part of a verdict
-FARM_DIAGNOSTIC = ["X05_EscrowConservation", "X05_DepositsBacked", "X05_SupplyClosed", "X05_CommunityPool",
+FARM_DIAGNOSTIC = ["X05_OtherDenomRejected", "X05_EscrowConservation", "X05_DepositsBacked", "X05_SupplyClosed", "X05_CommunityPool",
                    "X05_ProposerFrame", "X06_ProposalRecorded", "X06_GovPool", "X06_VoteDecides", "X06_OneOutcome",
                    "X06_CPNoPanic", "X06_AdjustNoPanic", "X06_AdjustGuard", "X12_Farm_Escrow", "X12_Farm_RoundTrip",
                    "C06_Covered"]
@@ -28,32 +28,72 @@ FARM_GOV_CFG = "users=2,rdenoms=2,proposers=2,initlp=4,initr=40,gov=1,reimport=1
 FARM_MAG_CFG = "users=3,rdenoms=2,initlp=2,initr=20000,strata=1"
 FARM_MAG_GOV_CFG = "users=2,rdenoms=2,proposers=2,initlp=3,initr=20000,gov=1,initcp=8000,maxprops=4,strata=1"
 FARM_MAG_SCN = "users=3,rdenoms=2,initlp=3,initr=20000,prec=10"
+# NEGATIVE PROBING (round 7).  probe=<pct>: that share of the blocks of a random history carries a burst of one to
+# three operations aimed at a pool chosen by LIFE-CYCLE STATE first (not started / starts next block / in its start
+# block / running / running without stakers / in its last block / just over / ended / ended with stakers left /
+# destroyed after its start / destroyed before its start / owned by the community pool), every message type (stake,
+# unstake up to / exactly / beyond the recorded stake, harvest, top-up, rate change, destroy, stake / unstake of a
+# coin that is not the staking token), by a role chosen towards that pool (creator, farmer with a stake, stranger);
+# one burst in five puts the transition itself (the creator's destroy) into the same block ahead of the operations;
+# a pool created in a block may be operated on in that very block under its predicted id; half as many blocks carry
+# an input of the WRONG KIND (pool ids that are prefixes / extensions / other spellings of real ones or ids of another
+# kind of object, staking coins of reward / fee denoms or plain coins shaped like pool share denoms - every user
+# holds "lpt-2" and "LPT-1" coins -, staking tokens no liquidity pool stands behind, top-ups and rates in denoms the
+# pool does not pay, start heights in the past / zero / so far ahead that the end height leaves int64).  The
+# specification predicts every one of them (strict-mode drift 0); the epilogue of every history is computed from
+# the farmer records of the REAL chain.
+FARM_PROBE = ",probe=30"
 FARM_RND = T(
-    [dict(n=12, len=25, procs=5, cfg="users=3,rdenoms=2,initlp=6,initr=60"),
-     dict(n=12, len=30, procs=5, cfg="users=2,rdenoms=1,initlp=4,initr=40,prec=100,reimport=1"),
-     dict(n=10, len=30, procs=4, cfg=FARM_GOV_CFG),
-     dict(n=9, len=14, procs=2, cfg=FARM_MAG_CFG), dict(n=9, len=14, procs=1, cfg=FARM_MAG_GOV_CFG)],
-    [dict(n=60, len=30, procs=7, cfg="users=3,rdenoms=2,initlp=6,initr=60"),
-     dict(n=60, len=40, procs=7, cfg="users=2,rdenoms=1,initlp=4,initr=40,prec=100,reimport=1"),
-     dict(n=60, len=40, procs=7, cfg=FARM_GOV_CFG),
-     dict(n=30, len=40, procs=4, cfg=FARM_GOV_CFG + ",burnpre=1,burnq=1,burnv=0,govdp=1,govvp=3"),
-     dict(n=27, len=20, procs=7, cfg=FARM_MAG_CFG), dict(n=27, len=20, procs=5, cfg=FARM_MAG_GOV_CFG)])
+    [dict(n=10, len=25, procs=5, cfg="users=3,rdenoms=2,initlp=6,initr=60" + FARM_PROBE),
+     dict(n=10, len=30, procs=5, cfg="users=2,rdenoms=1,initlp=4,initr=40,prec=100,reimport=1" + FARM_PROBE),
+     dict(n=10, len=30, procs=4, cfg=FARM_GOV_CFG + FARM_PROBE),
+     dict(n=9, len=14, procs=2, cfg=FARM_MAG_CFG + FARM_PROBE), dict(n=9, len=14, procs=1, cfg=FARM_MAG_GOV_CFG + FARM_PROBE)],
+    [dict(n=60, len=30, procs=7, cfg="users=3,rdenoms=2,initlp=6,initr=60" + FARM_PROBE),
+     dict(n=60, len=40, procs=7, cfg="users=2,rdenoms=1,initlp=4,initr=40,prec=100,reimport=1" + FARM_PROBE),
+     dict(n=60, len=40, procs=7, cfg=FARM_GOV_CFG + FARM_PROBE),
+     dict(n=30, len=40, procs=4, cfg=FARM_GOV_CFG + ",burnpre=1,burnq=1,burnv=0,govdp=1,govvp=3" + FARM_PROBE),
+     # the histories of the rounds before this one (no probes: more of every block goes to operations that succeed)
+     dict(n=30, len=30, procs=4, cfg="users=3,rdenoms=2,initlp=6,initr=60"),
+     dict(n=27, len=20, procs=7, cfg=FARM_MAG_CFG + FARM_PROBE), dict(n=27, len=20, procs=5, cfg=FARM_MAG_GOV_CFG + FARM_PROBE)])
 # multi-message transactions (runs of one signer's messages delivered as one real transaction)
 bundled(FARM_RND)
+for _t in FARM_RND.values():
+    # the bundled histories stay as they were (no probes): a transaction with a refused member fails as a whole
+    _t[-1]["cfg"] = _t[-1]["cfg"].replace(FARM_PROBE, "")
 FARM_GEN_GOV_CFG = "users=2,rdenoms=2,proposers=2,initlp=3,initr=20,prec=10,gov=1"
 FARM_GEN_MAG_CFG = "users=2,rdenoms=1,initlp=3,initr=3000,prec=10"
-FARM_GEN = T([dict(cfg="GEN_Farm.cfg", num=20, depth=15, seeds=10),
+# GEN_Farm_probe.cfg (GenSpecP): accepted events only until four events before the end, blocks kept coming; the last
+# four events are ones the specification REJECTS (every message type on the pools of the deep state reached, ids and
+# denoms of the wrong kind), delivered in the block of the last accepted messages; then the driver's epilogue (read
+# from the real chain: withdraw half, half of the rest, let the pools run to their ends, withdraw what is left)
+FARM_GEN = T([dict(cfg="GEN_Farm.cfg", num=20, depth=15, seeds=7),
+              dict(cfg="GEN_Farm_probe.cfg", num=12, depth=18, seeds=3),
+              dict(cfg="GEN_FarmGov_probe.cfg", num=8, depth=24, seeds=1, driver_cfg=FARM_GEN_GOV_CFG),
               dict(cfg="GEN_FarmGov.cfg", num=20, depth=24, seeds=4, driver_cfg=FARM_GEN_GOV_CFG),
               # magnitude: TLC-generated behaviours (rates 60/120 per block) executed with rates in [2^63,2^64):
               # rate x span wraps a 64-bit word from a span of 2 blocks on
               dict(cfg="GEN_FarmMag.cfg", num=20, depth=15, seeds=2, driver_cfg=FARM_GEN_MAG_CFG + ",rk=169093200598693763")],
              [dict(cfg="GEN_Farm.cfg", num=60, depth=17, seeds=14),
+              dict(cfg="GEN_Farm_probe.cfg", num=60, depth=18, seeds=8),
+              dict(cfg="GEN_Farm_probe.cfg", num=60, depth=22, seeds=6),
+              dict(cfg="GEN_FarmGov_probe.cfg", num=40, depth=28, seeds=4, driver_cfg=FARM_GEN_GOV_CFG),
               dict(cfg="GEN_FarmGov.cfg", num=60, depth=28, seeds=10, driver_cfg=FARM_GEN_GOV_CFG),
               dict(cfg="GEN_FarmMag.cfg", num=60, depth=17, seeds=5, driver_cfg=FARM_GEN_MAG_CFG + ",rk=169093200598693763"),
               dict(cfg="GEN_FarmMag.cfg", num=60, depth=17, seeds=5, driver_cfg=FARM_GEN_MAG_CFG + ",rk=16666666666666667"),
               dict(cfg="GEN_FarmMag.cfg", num=60, depth=17, seeds=5,
                    driver_cfg=FARM_GEN_MAG_CFG + ",rk=5671372782015648997643561488564147477,lpk=3402823669209384634633")])
+FARM_LIFE_CFG = "users=3,rdenoms=2,initlp=6,initr=60,prec=10"
 FARM_SCN = [dict(file="scenarios/farm_F2.ndjson", cfg="users=2,rdenoms=1,initlp=3,initr=20,prec=10"),
+            # negative probing, scripted (scenarios/farm_mk_lifecycle.py writes both files): a battery of every
+            # operation by creator / farmer with a stake / stranger on a pool destroyed BEFORE its start (in the block
+            # of the destroy, before, at and after its former start and end heights), on a pool destroyed after its
+            # start with farmers in it, on a pool in its last block, on pools that are over; five pools due at one
+            # height - one whose budget is exactly used up (Refund returns an error the end-blocker swallows), one
+            # with one of two denoms used up, one never staked, one destroyed by its creator in that block
+            dict(file="scenarios/farm_lifecycle.ndjson", cfg=FARM_LIFE_CFG),
+            # ids and denoms of the wrong kind in every field that takes one, on a running pool with a farmer in it,
+            # in the block of its destroy and after it
+            dict(file="scenarios/farm_oddinputs.ndjson", cfg=FARM_LIFE_CFG),
             dict(file="scenarios/farm_F3.ndjson", cfg="users=3,rdenoms=2,initlp=6,initr=60,prec=10"),
             # regression for fixed finding F30 (plain send to the module address before the account exists)
             dict(file="scenarios/farm_F30.ndjson", cfg="users=2,rdenoms=1,initlp=3,initr=20,prec=10"),
@@ -158,7 +198,13 @@ RECORD = [dict(binary="farm", n=T(3, 12), len=25, cfg="users=3,rdenoms=2,initlp=
 PROPS = {
     "C05": ModuleCheck("farm", "Farm.tla", "FarmTrace.tla", "FarmTrace.cfg", FARM_CLAUSES_C05,
                        FARM_MC, FARM_GEN, FARM_RND, scenarios=FARM_SCN,
-                       required=["unstake_ok", "stake_ok", "refund", "release", "payout", "cp_stake"],
+                       # from "stake_neverran" on: antecedents of the negative-probing round, all scripted in
+                       # scenarios/farm_lifecycle.ndjson / farm_oddinputs.ndjson (never missing unless a path broke)
+                       required=["unstake_ok", "stake_ok", "refund", "release", "payout", "cp_stake",
+                                 "stake_neverran", "stake_sameblock", "stake_over", "stake_notstarted", "harvest_over",
+                                 "unstake_over_ok", "unstake_sameblock_ok", "unstake_toomuch", "destroy_notstarted_ok",
+                                 "destroy_staked_ok", "role_creator", "role_staker", "role_stranger",
+                                 "other_denom_staker", "odd_pool", "odd_lpt"],
                        gen_cfg="users=2,rdenoms=1,initlp=3,initr=20,prec=10", post=[farm_magnitude_evidence],
                        assumptions=["TLC 1.8, SANY, CommunityModules Json", "Go toolchain, cosmos-sdk x/bank",
                                     "harness projection functions", "unit scaling of LP amounts (DESIGN 4.2)",
@@ -169,7 +215,12 @@ PROPS = {
                        # cp_*: a governance-funded pool was created, staked in, paid out and refunded to the community
                        # pool (scripted in scenarios/farm_gov_life.ndjson, so never missing unless the path broke)
                        required=["refund", "release", "payout", "adjust_ok", "destroy_ok",
-                                 "cp_pass", "cp_payout", "cp_pool_refund"],
+                                 "cp_pass", "cp_payout", "cp_pool_refund",
+                                 # negative probing (scripted in scenarios/farm_lifecycle.ndjson / farm_oddinputs.ndjson)
+                                 "adjust_over", "adjust_neverran", "adjust_sameblock", "adjust_notstarted_ok",
+                                 "destroy_over", "destroy_neverran", "destroy_nothing_left", "refund_many",
+                                 "refund_zero", "refund_many_one_zero", "refund_part_zero",
+                                 "refund_and_destroy_sameblock", "odd_adjust", "odd_start"],
                        gen_cfg="users=2,rdenoms=1,initlp=3,initr=20,prec=10", post=[farm_magnitude_evidence],
                        assumptions=["TLC 1.8, SANY, CommunityModules Json", "Go toolchain, cosmos-sdk x/bank",
                                     "harness projection functions", "unit scaling of LP amounts (DESIGN 4.2)",
